@@ -17,11 +17,13 @@
 (* is visible in the scores.                                               *)
 (* LeftWindow = "full" (repaired: starts = t-b) | "short" (pinned tree:   *)
 (* starts = t-b+1; negative configuration).                                *)
-(* Thresholds are half-integers: Thr2 = 2 * threshold is odd.             *)
+(* Thresholds are multiples of 1/2: Thr2 = 2 * threshold.  Odd Thr2 never  *)
+(* ties with a score; even Thr2 does, and "exceeds" is strict.  Exceed =   *)
+(* "strict" (the code: scores > threshold) | "weak" (>=; negative config). *)
 (***************************************************************************)
 EXTENDS MovingWindowDefs, TLC, Json
 
-CONSTANTS N, B, V, Thr2s, Mdis, LeftWindow, Emit, NSlices, Slice
+CONSTANTS N, B, V, Thr2s, Mdis, LeftWindow, Exceed, Emit, NSlices, Slice
 
 ASSUME N >= 2 * B /\ B >= 1
 
@@ -74,7 +76,7 @@ Transform ==
 Where ==
     /\ pc = "where"
     /\ IF i < N
-       THEN LET val == 2 * scores[i] > thr2 IN
+       THEN LET val == IF Exceed = "strict" THEN 2 * scores[i] > thr2 ELSE 2 * scores[i] >= thr2 IN
             /\ IF val /\ start = -1 THEN start' = i /\ ivs' = ivs
                ELSE IF ~val /\ start # -1 THEN start' = -1 /\ ivs' = Append(ivs, <<start, i>>)
                ELSE UNCHANGED <<start, ivs>>
